@@ -28,6 +28,11 @@ SLOTS = [("max_commit", "max_commit_size", "commit"), ("max_parent_count_commit"
          ("max_expanded_link_count_tree", "max_expanded_link_count", "tree"), ("max_expanded_submodule_count_tree", "max_expanded_submodule_count", "tree")]
 
 
+V2SYM = ["maxCommitSize", "maxCommitParentCount", "maxTreeEntries", "maxBlobSize", "maxTagDepth", "maxCheckoutTreeCount",
+         "maxCheckoutPathDepth", "maxCheckoutPathLength", "maxCheckoutBlobCount", "maxCheckoutBlobSize", "maxCheckoutLinkCount",
+         "maxCheckoutSubmoduleCount"]          # same order as SLOTS; also the order of the rows in the table
+
+
 def gen(rng):
     """Graphs with every kind of root: branches, tags of commits/tags/trees/blobs, lightweight refs to trees and blobs,
     subtrees shared between commits, hostile file names."""
@@ -223,6 +228,39 @@ def one_style(ctx, eng, res, stats, sc, args, explicit, roots, walked, style, re
                         mm = re.match(rb"\[\d+\] +([0-9a-f]{40})(?: \((.*)\))?$", ln)
                         if mm:
                             tbl_notes.setdefault(mm.group(1).decode(), set()).add(mm.group(2) or b"")
+            # JSON v2 and the table must cite, for every metric, the same object as JSON v1
+            if style != "none":
+                v2args = ["--json", "--json-version=2", "--no-progress", "--names=" + style] + args
+                if real:
+                    rc2, out2, err2 = S.run_sizer(ctx["bins"]["sizer"], d, v2args + [sp for sp, _ in explicit])
+                else:
+                    rc2, out2, err2, _ = eng.run_fake(sc, order, [], explicit, extra_args=v2args)
+                if rc2 == 0:
+                    j2 = json.loads(out2)
+                    for (pkey, vkey, kind), sym in zip(SLOTS, V2SYM):
+                        v1 = j.get(pkey)
+                        o1 = v1.partition(" ")[0] if v1 else None
+                        o2 = j2.get(sym, {}).get("objectName")
+                        if o1 != o2:
+                            res.violations.append(vlib.Violation("JSON v2 cites a different object than JSON v1 for %s" % sym, inp,
+                                                                 expected=o1, observed=o2))
+            if style == "full" and tbl_notes is not None:
+                # rows with a citation, in table order, against the slots that have a path, in the same order
+                cited = []
+                for ln in outt.split(b"\n\n")[0].split(b"\n"):
+                    mm = re.search(rb"\[(\d+)\] +\|", ln)
+                    if mm and ln.startswith(b"|"):
+                        cited.append(int(mm.group(1)))
+                notes = {}
+                for ln in outt.split(b"\n"):
+                    mm = re.match(rb"\[(\d+)\] +([0-9a-f]{40})", ln)
+                    if mm:
+                        notes[int(mm.group(1))] = mm.group(2).decode()
+                want = [j[pkey].partition(" ")[0] for pkey, _, _ in SLOTS if j.get(pkey)]
+                got = [notes.get(n) for n in cited]
+                if len(got) == len(want) and got != want:
+                    res.violations.append(vlib.Violation("the table cites different objects than JSON v1 (rows in table order)", inp,
+                                                         expected=want, observed=got))
             R = sc.reachable(walked)
             line = sc.model_line("paths " + style[0] + " " + table_tbl, order, roots, names=(style != "none"))
             line = line.replace("paths %s %s 1 " % (style[0], table_tbl), "paths %s %s %d " % (style[0], table_tbl, 0 if style == "none" else 1), 1) if False else line
